@@ -150,7 +150,7 @@ def job_worker(job):
     """One TLC job and the conformance run over its vectors (child process)."""
     label, module, spec_dir, cfg = job['label'], job['module'], job['dir'], job['cfg']
     res = tlc.run(module, cfg, spec_dir=spec_dir, workers=job['workers'],
-                  timeout=1500, library=tlc.SPEC, heap='2g', env=job['env'])
+                  timeout=1500, library=tlc.SPEC, heap=job['heap'], env=job['env'])
     if not res.ok:
         raise tlc.MachineryFailure(
             f'Text model ({label}) violates {res.violated}:\n' + res.stdout[-3000:])
@@ -547,7 +547,7 @@ def plan_jobs(tier, rnd):
         jobs.append(dict(label=label, module=module, dir=d))
 
     if tier == 'quick':
-        maxlen, fmtmax = 4, 6
+        maxlen, fmtmax = 4, 5
         add('numbers and formats', 'MC_TextN', seeds=[()], maxlen=0,
             nums='MCNums', fmtmax='MCFmtMax')
         for a in ALPHABET:
@@ -578,6 +578,7 @@ def plan_jobs(tier, rnd):
     for job in jobs:
         job.update(cfg=os.path.join(tlc.SPEC, 'Text_big.cfg'), workers=workers,
                    env={'JDK_JAVA_OPTIONS': jvm},
+                   heap='1g' if tier == 'quick' else '2g',
                    seed=rnd.randrange(2 ** 31), row_prob=row_prob,
                    text_row_prob=text_row_prob)
     return jobs, procs, maxlen, fmtmax
@@ -648,7 +649,8 @@ def run(tier, seed):
                f'{len(v.violations)} kept')
 
     v.extra.update(
-        exhaustive=True,
+        exhaustive=True,      # typed texts up to the bound; longer ones sampled
+        sampled_beyond_bound=(tier != 'quick'),
         bounds=dict(alphabet=[CH[c] for c in ALPHABET],
                     typed_text_exhaustive_up_to=maxlen,
                     longest_text=longest,
